@@ -516,7 +516,7 @@ def check(drv, pid, tier, seed):
                                      theorem_or_correspondence='coqchk rejected %s.vo or one of its dependencies' % pid, output=out[-3000:]), 'no-failing-input-found')
     ev = dict(property_id=pid, tier=tier, seed=seed, level='proof',
               coverage=dict(obligations=nobl, discharged=ndis,
-                            checker_cmd='cd /verif/coq && coq_makefile -f _CoqProject -o Makefile && make -j16  (coqc 8.16.1, full .vo build); then coqc on build/%s/cases_*.v (vm_compute of the model on the generated histories)' % pid,
+                            checker_cmd='cd /verif/coq && coq_makefile -f _CoqProject -o Makefile && make -k -j16  (coqc 8.16.1, full .vo build of the common tree after the translators regenerated Params.v, ParamsFoot.v, GenSrc.v, GenQueue.v, GenPipes.v, GenScan.v, GenModule.v, GenCollate.v from /repo); coqc on the late proof files of this property (cached when nothing they depend on changed); then coqc on build/%s/cases_*.v (vm_compute of the model on the generated histories)' % pid,
                             trusted_base=assumptions_of(drv, pid) + (static.get('assumptions', []) if static is not None else []) + TRUSTED_COMMON + (TRUSTED_GEN if cfg.get('gen_proofs') else []) + (TRUSTED_QUEUE if (cfg.get('queue_proofs') and 'GenC12.v' not in cfg.get('queue_proofs')) else []) + (TRUSTED_PIPES if 'GenC06.v' in (cfg.get('queue_proofs') or []) else []) + (TRUSTED_SCAN if 'GenC12.v' in (cfg.get('queue_proofs') or []) else []),
                             evaluations=meta['cases'], distinct_nontrivial=meta['distinct_nontrivial'], rule=meta['rule'],
                             samples=meta['samples'], steps=meta['steps'],
